@@ -331,6 +331,10 @@ def _ob_for(failmsg, spec):
     m = re.match(r'\s*([A-Za-z_0-9]+):', failmsg)
     if m and m.group(1) in spec.get('obligations', []):
         return m.group(1)
+    if spec.get('default_obligation'):
+        # a harness whose single obligation is "this call sequence does not panic": any failed
+        # check (a panic inside std, e.g. RefCell's already-borrowed) is that obligation
+        return spec['default_obligation']
     return 'safety(%s)' % ' '.join(failmsg.split())[:80] if spec.get('obligations') else 'all_assertions'
 
 
